@@ -408,6 +408,14 @@ def render_keys(ks, kind, none_class=-1):
     return out
 
 
+def take(lst, n):
+    """lst[:n] for a symbolic n, by explicit branching (the result is a plain concrete list)."""
+    for k in range(len(lst) + 1):
+        if n == k:
+            return list(lst[:k])
+    raise IndexError(n)
+
+
 def pick(menu, i):
     """Menu selection by symbolic index with explicit branches (keeps the index symbolic
     until compared, makes each menu entry its own path)."""
